@@ -182,6 +182,14 @@ def cases(tier, seed):
                 continue
             for kind in ("ML", "BAS", "ASC"):
                 yield {"k": "read", "chain": list(ch), "end": endname, "slen": stream_len, "kind": kind, "second": None}
+    # images written the way Disk BASIC writes them: a stream that ends exactly on a sector / granule boundary has no spare sector or
+    # granule - the last sector is counted as full (last-granule marker $C9 and 256 bytes in the last sector for a full granule)
+    for ch in chains:
+        for endname, stream_len in (("tight.sector", 512), ("tight.gran", 2304), ("tight.2gran", 4608), ("tight.gran+sector", 2304 + 256)):
+            if (stream_len + 2303) // 2304 != len(ch):
+                continue
+            for kind in ("ML", "BAS", "ASC"):
+                yield {"k": "read", "chain": list(ch), "end": endname, "slen": stream_len, "kind": kind, "second": None, "tight": True}
     # directories with holes: K = a KILLed entry (first byte $00), U = a never-used entry ($FF), F = a live file
     for layout in HOLE_LAYOUTS:
         yield {"k": "holes", "layout": layout}
@@ -295,7 +303,7 @@ def read_case_image(case):
         files.append({"name": "SECOND", "ext": "BIN", "type": 2, "dtype": 0, "stream": dskfs.make_stream("ml", d2, 0x3000, 0x3000),
                       "chain": case["second"]})
         specs.append(C.spec("SECOND", "BIN", 2, 0, 0x3000, 0x3000, 2500, "ff"))
-    return dskfs.write(files), specs
+    return dskfs.write(files, tight=bool(case.get("tight"))), specs
 
 
 def compare(specs, listed):
